@@ -222,13 +222,12 @@ class World:
 
     def err(self, e):
         """the property names no exception class: what is compared is THAT the real code raised (audit 3)"""
-        # The harness uses only public names of the statement's classes.  An AttributeError in a harness frame is
-        # here an ordinary outcome (`tx.vin.append` on a tuple, `setattr` of an unknown name on a mutable object),
-        # so only ImportError / NameError count as "the harness could not reach something".
-        if isinstance(e, (ImportError, NameError)):
-            fam = exc_family(e)
-            if fam.startswith('harness:'):
-                self.harness_err = fam
+        # exc_family reports `harness:…` only when the harness itself failed to reach a module-level or private name
+        # (framework rule of audit 4); `tx.vin.append` on a tuple or `setattr` of an unknown public name on a mutable
+        # object are ordinary outcomes
+        fam = 'py:RecursionError' if isinstance(e, RecursionError) else exc_family(e)
+        if fam.startswith('harness:'):
+            self.harness_err = fam
         return 'err'
 
     # -- one op; returns the out string; appends exactly one name --
@@ -937,7 +936,7 @@ class Gen:
                 return self.emit('newblkfrom %d %s' % (bh, ','.join(str(t) for t in txs if t is not None)),
                                  dict(kind='blk', mut=False))
             if r.random() < 0.3:
-                return self.emit('newhdr ' + s_hdr((self.version(True), self.h32(r.random() < 0.1), self.h32(), self.u32(),
+                return self.emit('newhdr ' + s_hdr((self.version(r.random() < 0.04), self.h32(r.random() < 0.02), self.h32(), self.u32(),
                                                     self.u32(), self.u32())), dict(kind='hdr', mut=False))
             txs = [self.any_tx() for _ in range(r.choice((0, 1, 1, 2, 3)))]
             txs = [t for t in txs if t is not None]
@@ -1413,6 +1412,9 @@ class C09(Prop):
         return '\t'.join(['c09.runc'] + list(case['args']))
 
     def agree(self, case, impl_out, model_out):
+        if model_out.startswith('bad-args'):
+            # a history the driver cannot parse is a harness bug, never a statement about /repo
+            raise DriverError('C09: the driver rejected the history %r' % case['args'][0][:400])
         if '@@diff@' in model_out:
             # the heap model and Spec.AliasSem disagree inside the driver: an infrastructure error (exit 2), never a
             # statement about /repo
@@ -1435,13 +1437,14 @@ class C09(Prop):
     def shrink_candidates(self, c):
         ops = c['args'][0].split(';')
         n = len(ops)
+        # (never the empty history: a candidate must still contain the step that diverges)
         # shorter prefixes first
         for k in range(1, n):
             yield mk('c09.run', ';'.join(ops[:k]), tag=c.get('tag', ''))
         # drop one step that binds no name used later (drop = renumber later names)
         for k in range(n - 1, -1, -1):
             cand = drop_step(ops, k)
-            if cand is not None:
+            if cand:
                 yield mk('c09.run', ';'.join(cand), tag=c.get('tag', ''))
 
     def signature(self, c, io, mo):
@@ -1454,6 +1457,10 @@ class C09(Prop):
             if any(op.split(' ')[0] in ('wlset', 'wlapp', 'stset', 'stapp') or
                    (op.startswith('newcin ') and not op.startswith('newcin - ')) for op in ops):
                 return 'D23-immutable-holds-mutable-part'
+            # every other divergence: classified by WHAT differs at the first diverging step, so that a shrink
+            # candidate is accepted only if it still shows the same kind of difference
+            a, b = ios[k].split('#', 1), mos[k].split('#', 1)
+            return 'C09-step-outcome' if a[0] != b[0] else 'C09-observation'
         return None
 
 
